@@ -66,10 +66,15 @@ def descriptions(tier, seed):
                     vv = [vv[0]] + vv[:0:-1]
                 n = len(vv)
                 out.append(("%s#%s%s" % (name, v, "@cw" if cw else ""), [[vv[i], vv[(i + 1) % n]] for i in range(n)], True))
-    for q in ("c4", "c8", "lens", "rsq", "blob", "dblh", "zeroh", "pinch", "ipinch", "tear", "mixg"):
+    for q in ("c4", "c8", "lens", "rsq", "blob", "dblh", "zeroh", "pinch", "ipinch", "tear", "mixg", "elev", "elev3"):
         for cw in (False, True):
-            S = al.build_leaf("Q." + q + ("@cw" if cw else ""))
-            ctrl = [[(p._x, p._y) for p in sg.ctrlpoints] for sg in S.jordans[0].segments]
+            d = al.leaf_data("Q." + q + ("@cw" if cw else ""))
+            if d[0] == "ctrl":
+                # the control points as written in the alphabet (a degree-elevated straight side stays elevated)
+                ctrl = [[tuple(p) for p in sg] for sg in d[1]]
+            else:
+                S = al.build_leaf("Q." + q + ("@cw" if cw else ""))
+                ctrl = [[(p._x, p._y) for p in sg.ctrlpoints] for sg in S.jordans[0].segments]
             out.append(("Q.%s%s" % (q, "@cw" if cw else ""), ctrl, False))
     return out
 
@@ -81,6 +86,26 @@ def cases(tier, seed):
         specs.append({"id": "ctor:%d:%s" % (n, ds[n][0]), "lo": n, "hi": n + 20, "tier": tier, "seed": seed})
     specs.append({"id": "malformed", "malformed": True, "tier": tier, "seed": seed})
     return specs
+
+
+def reduce_exact(seg):
+    """The lowest-degree control polygon of the same Bezier curve (exact test: the p-th
+    forward difference of the control points vanishes).  The library stores segments
+    degree-reduced, so this is what every constructor must agree on."""
+    seg = [(rg.ex(x), rg.ex(y)) for x, y in seg]
+    while len(seg) > 2:
+        p = len(seg) - 1
+        d = list(seg)
+        for _ in range(p):
+            d = [(b[0] - a[0], b[1] - a[1]) for a, b in zip(d[:-1], d[1:])]
+        if d[0] != (0, 0):
+            break
+        q = [seg[0]]
+        for i in range(1, p):
+            w = F(i, p)
+            q.append(((seg[i][0] - w * q[-1][0]) / (1 - w), (seg[i][1] - w * q[-1][1]) / (1 - w)))
+        seg = q
+    return seg
 
 
 def build_all(ctrl, is_poly):
@@ -176,11 +201,17 @@ def run_case(spec):
     ds = descriptions(spec["tier"], spec["seed"])[spec["lo"] : spec["hi"]]
     for name, ctrl, is_poly in ds:
         rep = {"id": "replay:" + name, "lo": spec["lo"], "hi": spec["hi"], "tier": spec["tier"], "seed": spec["seed"]}
+        given = ctrl
+        if not is_poly and any(len(sg) > 2 for sg in ctrl):
+            red = [reduce_exact(sg) for sg in ctrl]
+            if any(len(a) != len(b) for a, b in zip(red, ctrl)):
+                hist["degree-elevated description"] = hist.get("degree-elevated description", 0) + 1
+                ctrl = red  # the reference; the constructors still receive `given`
         ref = rg.RCurve(ctrl)
-        rational = all(not isinstance(v, float) for s in ctrl for p in s for v in p)
+        rational = all(not isinstance(v, float) for s in given for p in s for v in p)
         size = max(ref.size(), F(1, 1000))
         built = {}
-        for way, fn in build_all(ctrl, is_poly).items():
+        for way, fn in build_all(given, is_poly).items():
             st, J = call_limited(fn, 60)
             evals += 1
             nontrivial.append((name, way))
